@@ -155,7 +155,7 @@ def judge(res, code, g, resp):
 def shard(shard_no, nshards, seed, tier, extra):
     res = common.Result()
     rng = common.rng_for(seed, "c07", shard_no)
-    n = 900 if tier == "quick" else 40000
+    n = 2500 if tier == "quick" else 150000
     d = common.Driver("rel", shim=False)
     B = evm.boundary_constants()
     for i in range(n):
